@@ -356,6 +356,14 @@ READOUT = {        # read-out heading -> (kind, path)
 }
 
 
+def readout_ok(kind, stored, calculated):
+    """Stored quantity vs the BASIC read-out of the simulation that stored it.  S_S() reports 0 for a solid solution
+    that is not present while the entity keeps a numerical floor (< 1e-12 mol) for its components."""
+    if kind == "solid_solutions" and calculated == 0.0 and abs(stored) < 1e-12:
+        return True
+    return _close(stored, calculated, RTOL_READOUT, 1e-300)
+
+
 def blocks_of(store, keys):
     """raw.parse()-style blocks for the inventory functions of mc/oracles/raw.py."""
     text = "".join("%s %d\n%s\n" % (S.RAWKEY[k[0]], k[1], store[k]) for k in keys if k in store)
@@ -503,7 +511,7 @@ def judge(op, before, meta_b, after, meta_a, comps, res, exp, problems, diags):
                 got, want = _f(pa[path]), row.get(h)
                 if got is None or not isinstance(want, (int, float)):
                     continue
-                if not _close(got, float(want), RTOL_READOUT, 1e-300):
+                if not readout_ok(kind, got, float(want)):
                     P("saved-differs-from-calculated kind=%s quantity=%s" % (k[0], _generic(path)), "SAVE stored %s = %r under %s but the simulation calculated %r" % ("/".join(path), got, k, want))
         check_inventory(op, before, after, P)
     # ---- entries that a reaction may update in place
@@ -513,7 +521,7 @@ def judge(op, before, meta_b, after, meta_a, comps, res, exp, problems, diags):
             row = (res["sel"].get(1) or [{}])[-1]
             for h, (kind, path) in READOUT.items():
                 if kind == k[0] and path in pa and isinstance(row.get(h), (int, float)):
-                    if not _close(_f(pa[path]), float(row[h]), RTOL_READOUT, 1e-300):
+                    if not readout_ok(kind, _f(pa[path]), float(row[h])):
                         P("saved-differs-from-calculated kind=%s quantity=%s" % (k[0], _generic(path)), "kinetics entry %s holds %s = %r, calculated %r" % (k, "/".join(path), _f(pa[path]), row[h]))
     check_components(after, comps, oc, P)
 
@@ -712,7 +720,7 @@ def step(live, op, store, meta, problems, diags):
                         k = (kind, n)
                         if k in after and isinstance(row.get(h), (int, float)):
                             pa = S.body_paths(after[k])
-                            if path in pa and _f(pa[path]) is not None and not _close(_f(pa[path]), float(row[h]), RTOL_READOUT, 1e-300):
+                            if path in pa and _f(pa[path]) is not None and not readout_ok(kind, _f(pa[path]), float(row[h])):
                                 P("saved-differs-from-calculated kind=%s quantity=%s" % (kind, _generic(path)), "RUN_CELLS stored %s = %r under %s but calculated %r" % ("/".join(path), _f(pa[path]), k, row[h]))
             check_components(after, comps, oc, P)
     else:
@@ -990,8 +998,21 @@ def run(tier):
         ev.sample(s)
     ev.extra["alphabet_sizes"] = {k: len(v) for k, v in ALPHABETS.items()}
     ev.extra["alphabet"] = [S.op_name(o) for o in ALPHABETS["full"]]
+    ev.extra["sample_inputs"] = {S.op_name(o): S.op_text(o) for o in (ALPHABETS["full"][1], C("cell", 1, "2-3"), X("cells", "1 3"), M("solution", 2, 1),
+                                                                      MX("exchange", "3", [(1, "0.25"), (2, "0.5")]), RC("1-3"), make_combos()[0])}
+    ev.extra["calibration_notes"] = [
+        "GetComponentCount/GetComponent rewrite the -totals work space of stored KINETICS entries (list_components calls calc_dummy_kinetic_reaction_tally on the entity itself): every dump is taken after a component listing",
+        "SURFACE_MODIFY (cxxSurface::read_raw) clears new_def / sets tidied of an entity that has not been used yet; no consequence could be demonstrated, the flags new_def/tidied are not judged",
+        "SOLUTION_MODIFY -totals rescales the log-activity estimate of the same element; REACTION_TEMPERATURE prints count_temps from the list length; EQUILIBRIUM_PHASES rebuilds eltList: not judged",
+        "*_MIX with sources that do not exist stores the sum over the existing ones (an empty entity if none); SOLUTION_MIX additionally reports an error and leaves a solution with 0 kg water",
+        "a MIX definition naming a missing solution is an input error but the MIX entry is stored",
+        "RUN_CELLS on a cell that holds only a solution re-speciates and stores it, USE solution/SAVE solution alone is no calculation: such cells are compared with a single-cell RUN_CELLS",
+        "an initial-solution calculation depends on estimates left by earlier calculations at the 1e-8 level of -cb: SOLUTION definitions are compared with rtol 1e-6 / atol 1e-9, everything else bitwise",
+    ]
     ev.extra["lattice_points"] = ev.traces
     ev.extra["completed_runs"] = ev.transitions - ev.not_completed
+    if ev.not_completed > 0.5 * max(1, ev.transitions):
+        raise RuntimeError("completion floor (R2): %d of %d operations did not complete" % (ev.not_completed, ev.transitions))
     if len(ev.outcomes) < 50:
         raise RuntimeError("vacuity guard: only %d distinct successor states" % len(ev.outcomes))
     pool.close()
